@@ -665,3 +665,93 @@ def _flat(ifnode):
         if isinstance(b, ast.If):
             out.extend(_flat(b))
     return out
+
+
+# ---------------------------------------------------------------------------
+# P-forward-name: a function that has a parameter p and calls a teneva
+# function that also has a parameter named p must pass it on.
+FORWARD_ALLOWED = {
+    ('act_many.add_many', 'transformation.truncate', 'r'):
+        'the intermediate rounding of a running sum deliberately ignores the '
+        'rank cap (only the final rounding applies it)',
+    ('act_one.norm', 'act_two.mul_scalar', 'use_stab'):
+        'call in the plain (use_stab=False) branch',
+    ('transformation.truncate', 'transformation.orthogonalize', 'use_stab'):
+        'call in the plain (use_stab=False) branch',
+    ('als_func.als_func', 'func.func_get', 'a'):
+        'the basis closures passed as funcs= already capture the box',
+    ('als_func.als_func', 'func.func_get', 'b'):
+        'the basis closures passed as funcs= already capture the box',
+    ('cross.cross', 'cross._iter', 'tau'):
+        'maxvol pre-iteration uses the plain maxvol (documented)',
+    ('cross.cross', 'cross._iter', 'dr_min'):
+        'maxvol pre-iteration uses the plain maxvol (documented)',
+    ('cross.cross', 'cross._iter', 'dr_max'):
+        'maxvol pre-iteration uses the plain maxvol (documented)',
+    ('func.func_gets', 'func.func_basis', 'kind'):
+        'call inside the kind == "cheb" branch',
+    ('func.func_get.gen_def_func', 'func.func_basis', 'kind'):
+        'func_get only supports the Chebyshev kind; its kind parameter is '
+        'reserved and unused on the pinned tree',
+}
+FORWARD_ALLOWED_COUNT = {('cross.cross', 'cross._iter'): 2,
+                         ('als_func.als_func', 'func.func_get'): 2}
+
+
+def check_param_forwarding(prog, rep, callers=None, rule='P-forward-name'):
+    n = 0
+    for fn in prog.all_functions():
+        if isinstance(fn.node, ast.Lambda):
+            continue
+        if callers is not None and fn.qualname not in callers:
+            continue
+        mod = fn.module
+        own = set(fn.all_params)
+        g = fn.parent
+        while g is not None:
+            own |= set(g.all_params)
+            g = g.parent
+        seen = {}
+        for node in ast.walk(fn.node):
+            if not isinstance(node, ast.Call):
+                continue
+            if model.enclosing_function(prog, mod, node) is not fn:
+                continue
+            d = prog.dotted(node.func)
+            r = prog.resolve_dotted(mod, d, ()) if d else None
+            callee = None
+            if r and r[0] == 'teneva':
+                callee = r[1]
+                if isinstance(callee, model.ClassInfo):
+                    callee = callee.methods.get('__init__')
+            if callee is None or \
+                    any(isinstance(a, ast.Starred) for a in node.args):
+                continue
+            ps = callee.params
+            if callee.cls is not None and ps and ps[0] == 'self':
+                ps = ps[1:]
+            bound = set(ps[:len(node.args)]) | {k.arg for k in node.keywords
+                                                if k.arg}
+            for p in callee.all_params:
+                if p == 'self' or p not in own:
+                    continue
+                n += 1
+                construct = '%s(...) : parameter %s' % (
+                    src(mod, node.func), p)
+                if p in bound:
+                    rep.ok(rule, fn.qualname, construct)
+                    continue
+                key = (fn.qualname, callee.qualname, p)
+                cnt = seen[key] = seen.get(key, 0) + 1
+                lim = FORWARD_ALLOWED_COUNT.get(key[:2], 1)
+                if key in FORWARD_ALLOWED and cnt <= lim:
+                    rep.ok(rule, fn.qualname, construct + ' (omitted)',
+                           detail='allowed: ' + FORWARD_ALLOWED[key])
+                else:
+                    rep.violation(
+                        rule, fn.qualname, construct + ' (omitted)',
+                        '%s has its own parameter "%s" but calls %s without '
+                        'passing it: the callee silently falls back to its '
+                        'default' % (fn.qualname, p, callee.qualname),
+                        line=node.lineno, file=mod.path)
+    return n
